@@ -346,7 +346,7 @@ class Verdict:
         ev = dict(property_id=self.pid, tier=self.tier, seed=int(self.seed), level="proof",
                   coverage=coverage, assumptions=assumptions, wall_s=round(wall, 2),
                   violations=len(self.violations),
-                  known_findings=[k["key"] for k, _ in self.known_hits])
+                  known_findings=sorted({k["key"] for k, _ in self.known_hits}))
         EVIDENCE.mkdir(exist_ok=True)
         (EVIDENCE / f"{self.pid}.json").write_text(json.dumps(ev, indent=1, default=str))
         return rc
